@@ -4,7 +4,7 @@
 
 use crate::engine::{guard, Obs, PResult, Run};
 use crate::fl::{Fl, X};
-use crate::meanref::{compare_mean_interval, MeanRef};
+use crate::meanref::{compare_mean_interval_x, MeanRef};
 use crate::model::{bounds, call, ek, Conf, Out};
 use crate::props::c04::unpaired_ref;
 use crate::props::de;
@@ -123,7 +123,8 @@ fn check_mean_state_x<F: Fl>(what: &str, ty: &str, d: &[f64], count: usize, mean
         ensure!(e <= t, format!("C09/{what}/variance"), "{ty}: variance {v:e} vs exact {:e} (err {e:e} > tol {t:e}, n {}, merge depth {depth})", r.var, r.n);
         obs.headroom(&format!("variance/{ty}"), e / t, || json!({"n": r.n, "depth": depth}));
     }
-    match compare_mean_interval::<F>(&r, conf, (r.n - 1) as f64, depth, g) {
+    // the same round-trip allowance applies to each bound (relative u on exp / 1/x = absolute `extra` here)
+    match compare_mean_interval_x::<F>(&r, conf, (r.n - 1) as f64, depth, g, extra * (1.0 + g.1.abs().min(g.2.abs()) / (mean.abs() + f64::MIN_POSITIVE)).min(64.0)) {
         Ok(ratio) => obs.headroom(&format!("ci/{ty}"), ratio, || json!({"n": r.n, "depth": depth})),
         Err(msg) => return crate::engine::fail(format!("C09/{what}/ci"), format!("{ty} (merge depth {depth}): {msg}")),
     }
